@@ -85,6 +85,8 @@ def check_case(case):
     b, wall = body(case["body"], t)
     mode = case["lang"]
     cls = ["lang:" + mode, "body:" + case["body"]]
+    if (t[0], t[1], t[2]) in ((1, 1, 1), (9999, 12, 31)):
+        cls.append("body:range-edge")
     if case["zone"] is None:
         cls.append("control:naive")
         dd = _parser(mode).get_date_data(b)
@@ -172,6 +174,13 @@ def sampled(draw):
     zs = zones()
     z = draw(st.one_of(st.none(), st.sampled_from(zs), st.sampled_from(zs), st.sampled_from(zs)))
     t = draw(gen.datetimes(1000, 9999, us=False))[:6]
+    if draw(st.integers(0, 5)) == 0:
+        # the first / last 15 hours of the representable range: the written wall clock is representable, the same instant in
+        # UTC (or in another zone) is not — nothing in "exactly that offset, exactly those fields" needs that instant
+        secs_ = draw(st.one_of(st.integers(0, 15 * 3600), st.sampled_from([0, 1, 59, 60, 1800, 3599, 3600, 12 * 3600, 14 * 3600])))
+        e = (dt.datetime.min + dt.timedelta(seconds=secs_)) if draw(st.booleans()) else (
+            dt.datetime.max.replace(microsecond=0) - dt.timedelta(seconds=secs_))
+        t = [e.year, e.month, e.day, e.hour, e.minute, e.second]
     c = {"t": t, "body": draw(st.sampled_from(BODIES)), "lang": draw(st.sampled_from(["en", "en", "auto"])),
          "zone": list(z) if z else None, "pos": None}
     if z:
